@@ -872,10 +872,10 @@ def collect(chk: Check, thorough: bool):
     for label, cfg, expect, npaths in (
             ('Entitlement dirs (nesting, modes, scans; exhaustive)', 'MC_dirs.cfg',
              ['SetMode', 'AddDir', 'RemoveDir', 'ScanAll', 'ScanDir', 'QueueRequest', 'TransferRequest', 'Cycle',
-              'PeerAccept', 'PeerReject', 'UserAbort', 'UserPause'], 300 if thorough else 150),
+              'PeerAccept', 'PeerReject', 'UserAbort', 'UserPause'], 450 if thorough else 150),
             ('Entitlement users (friends, blocks, ticks; exhaustive)', 'MC_users.cfg',
              ['SetMode', 'SetUsers', 'SetFriend', 'SetBlock', 'UserMgmtTick', 'QueueRequest', 'TransferRequest',
-              'Cycle', 'PeerAccept', 'UserAbort'], 300 if thorough else 150)):
+              'Cycle', 'PeerAccept', 'UserAbort'], 450 if thorough else 150)):
         g, res = tlc.dump_graph(SPEC, cfg, parse_states='init', coverage=True, timeout=1200)
         if res.ok:
             missing = [a for a in expect if res.coverage.get(a, (0, 0))[1] == 0]
@@ -888,7 +888,7 @@ def collect(chk: Check, thorough: bool):
         chk.cov[f'graph_{cfg}'] = dict(states=len(g.states), edges=len(g.edges), paths_replayed=len(paths))
 
     # random behaviours of the larger model (with Look steps)
-    num = 900 if thorough else 260
+    num = 1600 if thorough else 260
     sims, sres = tlc.simulate_behaviours(SPEC, 'MC_sim.cfg', num=num, depth=16, seed=chk.seed + 8, timeout=900)
     for b in sims:
         add(_init_from_state(b[0][1]), steps_of([lab for lab, _ in b[1:]]), 'simulate:MC_sim.cfg')
@@ -1123,7 +1123,8 @@ def selftest(chk: Check, traces, verdicts):
             break
         done = False
         for i, e in enumerate(tr):
-            if kinds.count('locked->normal') < 3 and e['ev'] in ('search', 'shares') and e.get('locked'):
+            if (kinds.count('locked->normal') < 3 and e['ev'] in ('search', 'shares') and e.get('locked')
+                    and not any(x['ev'] in ('add', 'remove') for x in tr[:i])):   # no left-over items around
                 bad = copy.deepcopy(tr)
                 bad[i]['normal'] = sorted(set(e['normal']) | set(e['locked']))
                 bad[i]['locked'] = []
